@@ -12,7 +12,22 @@ import encjson as J
 from enc import call, tres, tbool, gbool
 
 PROGRAMS = ["x = 1\n", "def f(a, *b, c=1):\n    'doc'\n    return a\nprint(f)\n", "import os\nfor i in range(3):\n    if i: continue\n",
-            "class A:\n    def m(self):\n        return [i for i in self]\n", "y = (1.0, -0.0, 'a', b'b', ..., None)\n", ""]
+            "class A:\n    def m(self):\n        return [i for i in self]\n", "y = (1.0, -0.0, 'a', b'b', ..., None)\n", "",
+            # text that a command-line layer could be tempted to "tidy": lines of blanks inside a string literal, common
+            # indentation inside a literal, tabs, trailing blanks, a backslash continuation, only a comment
+            'doc = """first\n   \n\t\n    indented\n  \n"""\n',
+            "def g():\n    s = '''\n        a\n        \n        b\n    '''\n    return s\n",
+            "if 1:\n\tt = 'tab\tinside'   \n\tu = t  \n",
+            "v = 1 + \\\n    2\nw = 'x'  ;  z = w\n",
+            "# only a comment\n\n\n",
+            "s = 'caf\u00e9 \u4e2d \U0001f600'\nname_\u00e9 = s\n",
+            "async def co(a, b, *, c):\n    async for q in a:\n        yield q\n",
+            "lam = lambda: (yield)\nr = [(lambda q: q + k) for k in range(2)]\n"]
+# programs given as FILES only: what `python file.py` accepts - a UTF-8 byte order mark, a PEP 263 coding cookie
+FILE_PROGRAMS = [(b"\xef\xbb\xbfx = 'bom'\nprint(x)\n", "bom"),
+                 (b"# -*- coding: latin-1 -*-\ns = 'caf\xe9'\nprint(len(s))\n", "latin-1 cookie"),
+                 (b"#!/usr/bin/env python\n# vim: set fileencoding=utf-8 :\ns = '\xc3\xa9'\n", "utf-8 cookie on line 2"),
+                 (b"x = 1\r\ny = 2\r\n", "CRLF line ends")]
 INSTR_RE = re.compile(r"^\s*(?:\d+)?\s*(?:>>)?\s*(\d+)\s+([A-Z_+]+)\s*(\d+)?\s*(\(.*\))?\s*$")
 
 
@@ -79,22 +94,38 @@ def work(ctx):
     runs = []
     for pi, prog in enumerate(PROGRAMS):
         path = os.path.join(tmp, "p%d.py" % pi)
-        with open(path, "w") as f:
+        with open(path, "w", encoding="utf-8") as f:
             f.write(prog)
         for kind in ("file", "-c", "-e"):
             for fl in combos:
                 runs.append((pi, prog, kind, fl))
+    for fi, (raw, label) in enumerate(FILE_PROGRAMS):
+        with open(os.path.join(tmp, "f%d.py" % fi), "wb") as f:
+            f.write(raw)
+        for fl in ((), ("--json",), ("--source", "--dis", "--dis-after")):
+            runs.append((("f", fi), raw, "rawfile", fl))
     runs.append((None, None, "-m", ()))
     runs.append((None, None, "-m", ("--json", "--no-normalize")))
     if ctx.quick:
+        raw_runs = [r for r in runs if r[2] == "rawfile"]
+        runs = [r for r in runs if r[2] != "rawfile"]
         keep = [r for r in runs if set(r[3]) in ({}, set(), {"--json"}, {"--no-normalize"}, {"--dis", "--dis-after"}, set(flags_all))]
         rest = [r for r in runs if r not in keep]
-        runs = rng.sample(keep, min(len(keep), 24)) + rng.sample(rest, 16)
+        # every program once through each source kind with the default output, then samples of the flag combinations
+        base = [r for r in runs if r[3] == () and r[0] is not None]
+        runs = base + rng.sample(keep, min(len(keep), 16)) + rng.sample(rest, 12) + raw_runs[::3] + raw_runs[1::3][:2]
     for pi, prog, kind, fl in runs:
-        if kind == "file":
+        if kind == "rawfile":
+            args, fname = ["f%d.py" % pi[1]], "f%d.py" % pi[1]
+        elif kind == "file":
             args, fname = ["p%d.py" % pi], "p%d.py" % pi
         elif kind == "-c":
-            args, fname = ["-c", prog.replace("\n", "\\n")], "<string>"
+            # alternately with real newlines and with the documented backslash-n spelling of a newline (only when the
+            # program text contains no backslash, so that the spelling is unambiguous); the program the command is
+            # asked to show is its argument with every backslash-n pair read as a newline
+            spelled = prog.replace("\n", "\\n") if ("\\" not in prog and (pi + len(fl)) % 2 == 0) else prog
+            args, fname = ["-c", spelled], "<string>"
+            prog = spelled.replace("\\n", "\n")
         elif kind == "-e":
             args, fname = ["-e", repr(prog)], "<string>"
         else:
@@ -145,6 +176,6 @@ def work(ctx):
                 n = next((i for i, (a, b) in enumerate(zip(before, after)) if a != b), min(len(before), len(after)))
                 ctx.violation("dis-after-differs", "%s: --dis-after shows different instructions than --dis (first difference at #%d: %r vs %r)" % (
                     what, n, before[n:n + 1], after[n:n + 1]), data)
-        if "--source" in fl and kind != "-m" and prog.strip() and prog.strip().splitlines()[0] not in out:
+        if "--source" in fl and kind not in ("-m", "rawfile") and prog.strip() and prog.strip().splitlines()[0] not in out:
             ctx.violation("source-missing", "%s: --source does not show the program" % what, data)
         ctx.sample({"args": args, "stdout_bytes": len(out)})
